@@ -384,7 +384,10 @@ static std::string pdec_tok(const oct &pkt) {
 }
 static oct reframe(unsigned tag, const oct &body) { oct p; PGP::PacketTagEncode(tag, p); PGP::PacketLengthEncode(body.size(), p); p.insert(p.end(), body.begin(), body.end()); return p; }
 static void pdec_case(const oct &pkt) {
-	Rec("pdec").b(S(pkt)).t(pdec_tok(pkt)); g_cases++;
+	std::string tk = pdec_tok(pkt);
+	Rec("pdec").b(S(pkt)).t(tk); g_cases++;
+	// encode side, octet for octet: the model re-encodes the decoded fields (packet_of) and must obtain this packet
+	if (tk != "err" && tk != "unsup" && tk != "notmodelled") Rec("penc").b(S(pkt)).t("same");
 	// the same packet with its body cut at a generated position (every decoder's "too short" tests)
 	oct body; tmcg_openpgp_byte_t tag = PGP::PacketBodyExtract(pkt, 0, body);
 	if (tag && !body.empty()) for (int k = 0; k < 2; k++) {
@@ -678,6 +681,8 @@ int main(int argc, char **argv) {
 			Rec("armdec").b(t).t(ty == 0 ? std::string("0") : std::to_string((int)ty) + ":" + xb(S(b))); }
 	}
 	if (on("len")) {
+		// designed regression set: every boundary of RFC 4880 4.2.2 (191/192, 8383/8384), 2^16 and 2^32-1 is in BOTH tiers
+		// (e.g. the two-octet bound `len < 8384` -> `len <= 8384` would emit 8384 as E0 00, a partial length header)
 		static const size_t B[] = { 0, 1, 2, 100, 189, 190, 191, 192, 193, 194, 255, 256, 257, 447, 448, 449, 8381, 8382, 8383, 8384, 8385, 8386, 16383, 16384, 65534, 65535, 65536, 65537,
 			(1UL << 24) - 1, 1UL << 24, (1UL << 31) - 1, 1UL << 31, (1UL << 32) - 2, (1UL << 32) - 1, 1UL << 32, (1UL << 32) + 191, (1UL << 40) + 8383 };
 		for (size_t i = 0; i < sizeof(B) / sizeof(B[0]); i++) lenenc_case(B[i]);
@@ -781,7 +786,7 @@ int main(int argc, char **argv) {
 		static const size_t DL[] = { 0, 1, 2, 184, 185, 186, 187, 190, 191, 192, 193, 8376, 8377, 8378, 8379, 8382, 8383, 8384, 8385, 65536 };
 		for (size_t i = 0; i < 20; i++) { oct d = rnd_oct(DL[i]); pk_lit(d, true); pk_sed_seipd_mdc_aead(d); pk_uid(S(rnd_oct(DL[i])), false); }
 		for (int k = 0; k < (T ? 200 : 30); k++) { oct d = rnd_oct(gen().below(400)); pk_lit(d, k < 5); pk_sed_seipd_mdc_aead(d); }
-		pk_uid("Alice Example <alice@example.org>", true); pk_uid("a", true); pk_uid(std::string(191, 'u'), true); pk_uid(std::string(192, 'v'), true); pk_uid(std::string(2000, 'w'), true); pk_uid(std::string(8384, 'w'), false);   // gpg refuses user IDs above 2048 octets (its own limit)
+		pk_uid("Alice Example <alice@example.org>", true); pk_uid("a", true); pk_uid(std::string(191, 'u'), true); pk_uid(std::string(192, 'v'), true); pk_uid(std::string(2000, 'w'), true); pk_uid(std::string(8383, 'w'), false); pk_uid(std::string(8384, 'w'), false); pk_uid(std::string(65535, 'x'), false); pk_uid(std::string(65536, 'x'), false);   // gpg refuses user IDs above 2048 octets (its own limit)
 		for (int k = 0; k < (T ? 300 : 50); k++) pk_subpkt();
 		for (int k = 0; k < (T ? 120 : 24); k++) pk_pkesk(k < 6);
 		for (int k = 0; k < (T ? 400 : 70); k++) pk_sig(k < 14);
